@@ -394,51 +394,105 @@ Qed.
 Lemma vdot_zero_vec v : vdot v v = 0 -> v = (0, 0, 0).
 Proof. intros H. unfold vdot in H. apply sumsq3_zero in H. destruct H as (A & B & C). apply vec3_eq; assumption. Qed.
 
-Lemma pol_basis_lemma e r : vnorm (vcross e zhat) <> 0 -> vdot r r = 1 -> vdot (vcross e zhat) r = 0 ->
-  let u_s0 := vnormalize (vcross e zhat) in
+(* the s-direction as propagate() builds it: normalize(e x z), or, for an exactly vertical ray
+   (zero cross product), the limit (sin phi, -cos phi, 0) along the ray's azimuth *)
+Definition us0 (e : vec3) (phi : R) : vec3 :=
+  let u := vnormalize (vcross e zhat) in if negb (vany u) then (sin phi, - cos phi, 0) else u.
+
+Lemma vany_zero : vany (0, 0, 0) = false.
+Proof.
+  unfold vany, vx, vy, vz; simpl. assert (E : Reqb 0 0 = true) by (apply Reqb_true; reflexivity). rewrite E. reflexivity.
+Qed.
+
+Lemma vany_false v : vany v = false -> v = (0, 0, 0).
+Proof.
+  unfold vany. intros H. apply orb_false_elim in H. destruct H as [H Hz]. apply orb_false_elim in H. destruct H as [Hx Hy].
+  apply negb_false_iff in Hx, Hy, Hz. apply Reqb_true in Hx, Hy, Hz. apply vec3_eq; assumption.
+Qed.
+
+Lemma vnorm_zero_vec : vnorm (0, 0, 0) = 0.
+Proof. unfold vnorm, vdot, vx, vy, vz; simpl. replace (0 * 0 + 0 * 0 + 0 * 0) with 0 by ring. apply sqrt_0. Qed.
+
+Lemma us0_nonvertical e phi : vnorm (vcross e zhat) <> 0 -> us0 e phi = vnormalize (vcross e zhat).
+Proof.
+  intros H. unfold us0. cbv zeta. destruct (vany (vnormalize (vcross e zhat))) eqn:E; [reflexivity|].
+  apply vany_false in E. pose proof (vnormalize_unit _ H) as U. rewrite E in U.
+  unfold vdot, vx, vy, vz in U; simpl in U. lra.
+Qed.
+
+Lemma us0_vertical e phi : vnorm (vcross e zhat) = 0 -> us0 e phi = (sin phi, - cos phi, 0).
+Proof.
+  intros H. unfold us0. cbv zeta. rewrite (vnormalize_zero _ H).
+  assert (Z : vcross e zhat = (0, 0, 0)) by (apply vdot_zero_vec, vnorm_zero_iff; exact H).
+  rewrite Z, vany_zero. reflexivity.
+Qed.
+
+Lemma us0_unit e phi : vdot (us0 e phi) (us0 e phi) = 1.
+Proof.
+  destruct (Req_dec (vnorm (vcross e zhat)) 0) as [Z|NZ].
+  - rewrite (us0_vertical _ _ Z). unfold vdot, vx, vy, vz; simpl. pose proof (sin2_cos2 phi) as S. unfold Rsqr in S. lra.
+  - rewrite (us0_nonvertical _ _ NZ). apply vnormalize_unit; assumption.
+Qed.
+
+Lemma us0_perp_e e phi : vdot (us0 e phi) e = 0.
+Proof.
+  destruct (Req_dec (vnorm (vcross e zhat)) 0) as [Z|NZ].
+  - rewrite (us0_vertical _ _ Z).
+    assert (Z0 : vcross e zhat = (0, 0, 0)) by (apply vdot_zero_vec, vnorm_zero_iff; exact Z).
+    assert (Ex : vy e = 0) by (apply (f_equal vx) in Z0; unfold vcross, zhat, vx, vy, vz in *; simpl in *; lra).
+    assert (Ey : vx e = 0) by (apply (f_equal vy) in Z0; unfold vcross, zhat, vx, vy, vz in *; simpl in *; lra).
+    unfold vdot. change (vx (sin phi, - cos phi, 0)) with (sin phi). change (vy (sin phi, - cos phi, 0)) with (- cos phi).
+    change (vz (sin phi, - cos phi, 0)) with 0. rewrite Ex, Ey. ring.
+  - rewrite (us0_nonvertical _ _ NZ), vdot_normalize_l, vdot_comm, vcross_perp_l. ring.
+Qed.
+
+(* received direction in the plane of incidence: sufficient conditions *)
+Lemma us0_perp_r_nonvertical e phi r : vnorm (vcross e zhat) <> 0 -> vdot (vcross e zhat) r = 0 -> vdot (us0 e phi) r = 0.
+Proof. intros NZ H. rewrite (us0_nonvertical _ _ NZ), vdot_normalize_l, H. ring. Qed.
+
+Lemma us0_perp_r_vertical e phi r : vnorm (vcross e zhat) = 0 -> vx r * sin phi - vy r * cos phi = 0 -> vdot (us0 e phi) r = 0.
+Proof.
+  intros Z H. rewrite (us0_vertical _ _ Z). unfold vdot.
+  change (vx (sin phi, - cos phi, 0)) with (sin phi). change (vy (sin phi, - cos phi, 0)) with (- cos phi).
+  change (vz (sin phi, - cos phi, 0)) with 0. lra.
+Qed.
+
+Lemma pol_basis_lemma e phi r : vnorm e <> 0 -> vdot r r = 1 -> vdot (us0 e phi) r = 0 ->
+  let u_s0 := us0 e phi in
   let u_p0 := vnormalize (vcross u_s0 e) in
   let u_p1 := vnormalize (vcross u_s0 r) in
   vdot u_s0 u_s0 = 1 /\ vdot u_p1 u_p1 = 1 /\ vdot u_s0 u_p1 = 0 /\ vdot u_s0 r = 0 /\ vdot u_p1 r = 0 /\
   (vdot u_p0 u_p0 = 1 /\ vdot u_s0 u_p0 = 0 /\ vdot u_p0 e = 0 /\ vdot u_s0 e = 0).
 Proof.
-  intros Hn Hr Hperp u_s0 u_p0 u_p1.
-  assert (Us : vdot u_s0 u_s0 = 1) by (apply vnormalize_unit; assumption).
-  assert (Sr : vdot u_s0 r = 0).
-  { unfold u_s0. rewrite vdot_normalize_l, Hperp. ring. }
-  assert (Se : vdot u_s0 e = 0).
-  { unfold u_s0. rewrite vdot_normalize_l, vdot_comm, vcross_perp_l. ring. }
+  intros Ne Hr Sr u_s0 u_p0 u_p1.
+  assert (Us : vdot u_s0 u_s0 = 1) by apply us0_unit.
+  assert (Se : vdot u_s0 e = 0) by apply us0_perp_e.
   assert (N1 : vnorm (vcross u_s0 r) <> 0).
   { rewrite vnorm_cross_perp by assumption. unfold vnorm. rewrite Hr, sqrt_1. lra. }
-  assert (Ne : vnorm e <> 0).
-  { intros E. apply Hn. apply vnorm_zero_iff in E.
-    assert (Z : vx e = 0 /\ vy e = 0 /\ vz e = 0) by (unfold vdot in E; apply sumsq3_zero; exact E).
-    destruct Z as (Z1 & Z2 & Z3). apply vnorm_zero_iff. unfold vdot, vcross, zhat, vx, vy, vz in *; simpl in *.
-    rewrite Z1, Z2, Z3. ring. }
   assert (N0 : vnorm (vcross u_s0 e) <> 0) by (rewrite vnorm_cross_perp by assumption; exact Ne).
   repeat split.
   - exact Us.
   - apply vnormalize_unit; assumption.
-  - unfold u_p1. rewrite vdot_comm, vdot_normalize_l, vdot_comm, vcross_perp_l. ring.
+  - unfold u_p1. rewrite vdot_comm, vdot_normalize_l, vcross_perp_l'. ring.
   - exact Sr.
   - unfold u_p1. rewrite vdot_normalize_l, vdot_comm, vcross_perp_r. ring.
   - apply vnormalize_unit; assumption.
-  - unfold u_p0. rewrite vdot_comm, vdot_normalize_l, vdot_comm, vcross_perp_l. ring.
+  - unfold u_p0. rewrite vdot_comm, vdot_normalize_l, vcross_perp_l'. ring.
   - unfold u_p0. rewrite vdot_normalize_l, vdot_comm, vcross_perp_r. ring.
   - exact Se.
 Qed.
 
-(* exactly vertical emitted direction: the construction returns zero vectors (F12a) *)
+(* the construction WITHOUT the vertical-ray case returns zero vectors for a vertical ray
+   (design finding F12a; repaired in pyrex by the `fix:` commit recorded in known_findings/C03.json) *)
 Lemma pol_basis_vertical_zero r :
   let u_s0 := vnormalize (vcross zhat zhat) in
   let u_p1 := vnormalize (vcross u_s0 r) in
   u_s0 = (0, 0, 0) /\ u_p1 = (0, 0, 0) /\ vdot u_s0 u_s0 <> 1.
 Proof.
   assert (Z : vcross zhat zhat = (0, 0, 0)) by (apply vec3_eq; unfold vcross, zhat, vx, vy, vz; simpl; ring).
-  assert (N : forall v, v = (0, 0, 0) -> vnorm v = 0).
-  { intros v E; subst. unfold vnorm, vdot, vx, vy, vz; simpl. replace (0 * 0 + 0 * 0 + 0 * 0) with 0 by ring. apply sqrt_0. }
-  cbv zeta. rewrite Z. rewrite (vnormalize_zero (0, 0, 0)) by (apply N; reflexivity).
+  cbv zeta. rewrite Z. rewrite (vnormalize_zero (0, 0, 0)) by apply vnorm_zero_vec.
   assert (C : vcross (0, 0, 0) r = (0, 0, 0)) by (apply vec3_eq; unfold vcross, vx, vy, vz; simpl; ring).
-  rewrite C, (vnormalize_zero (0, 0, 0)) by (apply N; reflexivity).
+  rewrite C, (vnormalize_zero (0, 0, 0)) by apply vnorm_zero_vec.
   repeat split. unfold vdot, vx, vy, vz; simpl. lra.
 Qed.
 
@@ -454,33 +508,26 @@ Proof.
   pose proof (vdot_self_nonneg w) as W. rewrite E, Hu, Hv, Huv in W. lra.
 Qed.
 
-Lemma pol_amplitudes_bounded e p :
-  let u_s0 := vnormalize (vcross e zhat) in
+Lemma cauchy_schwarz_unit p u : vdot u u = 1 -> vdot p u * vdot p u <= vdot p p.
+Proof.
+  intros Hu. pose proof (vdot_self_nonneg (vcross p u)) as L. rewrite lagrange, Hu in L. lra.
+Qed.
+
+Lemma pol_amplitudes_bounded e phi p :
+  let u_s0 := us0 e phi in
   let u_p0 := vnormalize (vcross u_s0 e) in
   vdot p u_s0 * vdot p u_s0 + vdot p u_p0 * vdot p u_p0 <= vdot p p.
 Proof.
-  cbv zeta. destruct (Req_dec (vnorm (vcross e zhat)) 0) as [Z|NZ].
-  - assert (E0 : vcross e zhat = (0, 0, 0)) by (apply vdot_zero_vec, vnorm_zero_iff; exact Z).
-    rewrite (vnormalize_zero _ Z), E0.
-    assert (C : vcross (0, 0, 0) e = (0, 0, 0)) by (apply vec3_eq; unfold vcross, vx, vy, vz; simpl; ring).
-    rewrite C. assert (N : vnorm (0, 0, 0) = 0).
-    { unfold vnorm, vdot, vx, vy, vz; simpl. replace (0 * 0 + 0 * 0 + 0 * 0) with 0 by ring. apply sqrt_0. }
-    rewrite (vnormalize_zero _ N).
-    pose proof (vdot_self_nonneg p). unfold vdot at 1 2 3 4, vx, vy, vz; simpl. nra.
-  - assert (R1 : vdot (1, 0, 0) (1, 0, 0) = 1) by (unfold vdot, vx, vy, vz; simpl; ring).
-    destruct (pol_basis_lemma e (vnormalize (vcross (vnormalize (vcross e zhat)) e)) NZ) as (A & _ & _ & _ & _ & B & C & _).
-    + apply vnormalize_unit.
-      assert (Us : vdot (vnormalize (vcross e zhat)) (vnormalize (vcross e zhat)) = 1) by (apply vnormalize_unit; assumption).
-      assert (Se : vdot (vnormalize (vcross e zhat)) e = 0) by (rewrite vdot_normalize_l, vdot_comm, vcross_perp_l; ring).
-      rewrite vnorm_cross_perp by assumption.
-      intros E. apply NZ. apply vnorm_zero_iff in E.
-      assert (Zc : vx e = 0 /\ vy e = 0 /\ vz e = 0) by (unfold vdot in E; apply sumsq3_zero; exact E).
-      destruct Zc as (Z1 & Z2 & Z3). apply vnorm_zero_iff. unfold vdot, vcross, zhat, vx, vy, vz in *; simpl in *.
-      rewrite Z1, Z2, Z3. ring.
-    + rewrite vdot_comm, vdot_normalize_l.
-      replace (vdot (vcross (vnormalize (vcross e zhat)) e) (vcross e zhat))
-        with (vnorm (vcross e zhat) * vdot (vcross (vnormalize (vcross e zhat)) e) (vnormalize (vcross e zhat))).
-      * rewrite vcross_perp_l'. ring.
-      * rewrite (vnormalize_nonzero _ NZ) at 2. rewrite vdot_scale_r. field. assumption.
-    + apply bessel2; assumption.
+  cbv zeta. pose proof (us0_unit e phi) as Us. pose proof (us0_perp_e e phi) as Se.
+  destruct (Req_dec (vnorm e) 0) as [Z|NZ].
+  - assert (Z0 : vnorm (vcross (us0 e phi) e) = 0) by (rewrite vnorm_cross_perp by assumption; exact Z).
+    rewrite (vnormalize_zero _ Z0).
+    assert (C0 : vcross (us0 e phi) e = (0, 0, 0)) by (apply vdot_zero_vec, vnorm_zero_iff; exact Z0).
+    rewrite C0. pose proof (cauchy_schwarz_unit p _ Us).
+    unfold vdot at 3 4. change (vx (0, 0, 0)) with 0. change (vy (0, 0, 0)) with 0. change (vz (0, 0, 0)) with 0. lra.
+  - assert (N0 : vnorm (vcross (us0 e phi) e) <> 0) by (rewrite vnorm_cross_perp by assumption; exact NZ).
+    apply bessel2.
+    + exact Us.
+    + apply vnormalize_unit; exact N0.
+    + rewrite vdot_comm, vdot_normalize_l, vcross_perp_l'. ring.
 Qed.
